@@ -33,6 +33,7 @@ ASSUMPTIONS = ["operations do not overlap; in-flight bytes are delivered before 
 IP, PORT = "10.0.0.2", 6444
 CMD = bytes.fromhex("aa21ac8d000000000003418100ff03ff000200000000000000000000000003016971")
 LIFETIME = 60
+WRAPS = tuple(1 << k for k in range(8, 17))
 
 BASE_EVENTS = [
     ("send", "ok"), ("send", "silent"), ("send", "error"), ("send", "close"), ("send", "hs-silent"), ("send", "refuse"),
@@ -216,10 +217,8 @@ def monitor(run: Run):
                 out.append(("I1 unexpected packet type on the wire", f"type {pt}"))
             c = e.get("counter")
             if c is not None:
-                if prev is None:
-                    if c != 0:
-                        out.append(("I3 first counter on a connection is not 0", f"conn {cidx}: {c}"))
-                elif c != prev + 1 and not (c == 0 and prev + 1 in (1 << 12, 1 << 16)):
+                # +1 per packet; a wrap to zero is legitimate only at a power of two between 2^8 and 2^16 (2-byte field)
+                if prev is not None and c != prev + 1 and not (c == 0 and prev + 1 in WRAPS):
                     out.append(("I3 counter step", f"conn {cidx}: {prev}->{c}"))
                 prev = c
     # raw bytes that the device could not even frame
@@ -442,7 +441,7 @@ def run_long(st: Stats, n):
             if not e["ok"]:
                 st.violation("long session: packet rejected by the device", case, "accepted", e.get("error"))
                 break
-            if prev is not None and c != prev + 1 and not (c == 0 and prev + 1 in (1 << 12, 1 << 16)):
+            if prev is not None and c != prev + 1 and not (c == 0 and prev + 1 in WRAPS):
                 st.violation(f"long session: counter step {prev}->{c}", case, prev + 1, c)
                 break
             prev = c
